@@ -47,9 +47,13 @@ type vfC15Act struct {
 	Cut int
 	// CutClass names the offset class of Cut.
 	CutClass string
-	Status   int
-	Gzip     bool
-	Chunked  bool
+	// ThenOK: only the first request is cut short; a request that follows it
+	// (a client that tries again) gets the whole body.
+	ThenOK  bool
+	served  int
+	Status  int
+	Gzip    bool
+	Chunked bool
 	// Variant describes how Body was derived (fresh, same, same_rules,
 	// shifted, empty, ...).
 	Variant string
@@ -63,6 +67,9 @@ func (a *vfC15Act) name() string {
 	}
 	if a.Kind == "cut" {
 		n += ":" + a.CutClass
+		if a.ThenOK {
+			n += ":then_ok"
+		}
 	}
 	if a.Kind == "ok" {
 		n += ":" + a.Variant
@@ -134,7 +141,15 @@ func (s *vfC15Server) ServeHTTP(w http.ResponseWriter, r *http.Request) {
 			_ = conn.Close()
 		}
 	case "cut":
-		s.send(w, a, a.Body, a.Cut)
+		s.mu.Lock()
+		again := a.ThenOK && a.served > 0
+		a.served++
+		s.mu.Unlock()
+		if again {
+			s.send(w, a, a.Body, len(a.Body))
+		} else {
+			s.send(w, a, a.Body, a.Cut)
+		}
 	case "gzip_cut":
 		z := vfC15Gzip(a.Body)
 		z = z[:len(z)/2]
@@ -521,6 +536,7 @@ func (w *vfC15World) drawAct(t *rapid.T, label string, l *vfC15List) (a *vfC15Ac
 		for len(a.Body) < 2 || !bytes.Contains(a.Body[:len(a.Body)-1], []byte{'\n'}) {
 			a.Body = append(a.Body, "\n||pad.a.test^\n"...)
 		}
+		a.ThenOK = rapid.IntRange(0, 2).Draw(t, label+"_then_ok") == 0
 		a.CutClass = rapid.SampledFrom([]string{"after_headers", "mid_line", "mid_line", "line_boundary", "last_byte"}).Draw(t, label+"_cutclass")
 		switch a.CutClass {
 		case "after_headers":
@@ -615,6 +631,25 @@ func (w *vfC15World) expect(t vfC15TB, p *vfC15Pending, l *vfC15List) (outcome s
 	switch a.Kind {
 	case "ok", "redirect_ok", "html", "binary":
 		// The whole body arrives; its content decides.
+	case "cut":
+		if !a.ThenOK {
+			return "fail"
+		}
+		// The transfer fails; a program that tries again gets the whole
+		// body.  Either it gives up (nothing changes) or the second transfer
+		// counts (the list is exactly the new content): nothing in between.
+		exps := vfC15Expectations(a.Body)
+		if len(exps) != 1 || exps[0].Err {
+			return "fail"
+		}
+		if !bytes.Equal(exps[0].Norm, l.NF) {
+			p.open[l.Idx] = true
+			p.newNF[l.Idx] = exps[0]
+			p.raw[l.Idx] = a.Body
+		}
+		vfC15.Class("refresh:cut_then_ok")
+
+		return "fail_or_retried"
 	default:
 		return "fail"
 	}
